@@ -14,7 +14,16 @@ it builds spec-encoded bytes and echoes the xids it read from the bytes the cont
      (a connection accepted first may complete last), followed by every short sequence of closes;
  (e) the same life-cycle driven through the REAL OpenFlow_01_Task.run loop (scripted listener,
      non-blocking sockets, honest select) with messages split across reads and read-size boundaries
-     (pending bytes exactly 2047/2048/2049/4095/4096/4097, features replies of 41..86 ports).
+     (pending bytes exactly 2047/2048/2049/4095/4096/4097, features replies of 41..86 ports);
+ (f) application listeners that ACT during the delivery of a life-cycle event (re-entrant use of the
+     connection): for every (source nexus|Connection) x (ConnectionUp|ConnectionDown|PortStatus) x
+     (close | disconnect | send that fails | sendToDPID | raise) x (the event's connection | the older
+     connection of the same datapath) x (once per connection | every time), histories of one connection
+     (every prefix, then [send error,] close) and of two connections of one datapath (every merge order);
+ (g) overlapping handshakes of two connections (datapath ids 1,2 and 1,1): every merge order of the two
+     scripts, an asynchronous message at every position of each (also BEFORE the features reply), and
+     connection 0 closed after every prefix while connection 1 goes on (state leaking between connections).
+In every part an application listener reads the registry DURING the delivery of every life-cycle event.
 
 Oracle: mc.refs.c09_lifecycle.Ref, evaluated after every operation (events on the nexus and on the
 Connection, the registry, and a sendToDPID probe for every datapath id).
@@ -44,7 +53,7 @@ def pox_site (tb):
 
 class World (object):
   """One execution: real controller objects + scripted peers + reference model."""
-  def __init__ (self, dpids):
+  def __init__ (self, dpids, spec=None):
     from mc.env import ControllerStack, VClock
     self.st = ControllerStack(clock=VClock())
     self.of01 = self.st.of01
@@ -65,6 +74,20 @@ class World (object):
     self.probe_n = 0
     self.prev_reg = {}
     self.read_exceptions = []
+    # application listeners (observe the registry during delivery; part (f): act on a connection)
+    self.spec = spec                    # None | (where, event, action, target, mode)
+    self.cur = None                     # [slot, items, next index] of the chunk being delivered
+    self.acted = set()                  # slots a listener acted on during the current operation
+    self.announced = []                 # slots in the order of their ConnectionUp on the nexus
+    self.fired_once = set()
+    self.depth = 0                      # nesting of acting listeners
+    self.fires = 0
+    self.lsn_epipe = {}                 # slot -> failed sends scripted by a listener
+    self.lprobe_n = 0
+    ofm = self.st.ofm
+    for name, ev in (("ConnectionUp", ofm.ConnectionUp), ("ConnectionDown", ofm.ConnectionDown), ("PortStatus", ofm.PortStatus)):
+      # after the recorder (same source, lower priority): the logs keep the order in which events are RAISED
+      self.st.nexus.addListener(ev, (lambda e, name=name: self.on_event(name, "nexus", e)), priority=-1)
 
   def dispose (self):
     try: self.st.core.removeListener(self.st.nexus._handle_DownEvent)
@@ -94,6 +117,7 @@ class World (object):
     ofm = self.st.ofm
     for name, ev in (("ConnectionUp", ofm.ConnectionUp), ("ConnectionDown", ofm.ConnectionDown), ("PortStatus", ofm.PortStatus)):
       con.addListener(ev, (lambda e, name=name, i=i: self.con_events.append((name, i, e))))
+      con.addListener(ev, (lambda e, name=name: self.on_event(name, "connection", e)), priority=-1)
 
   @staticmethod
   def _ps_ident (e):
@@ -108,7 +132,7 @@ class World (object):
     for name, idx, e in new:
       slot = self.slot_of.get(idx)
       if name in ("ConnectionUp", "ConnectionDown", "PortStatus"):
-        if slot != i:
+        if slot != i and slot not in self.acted:
           self.fail("event:%s:for-another-connection" % name, "operation on connection %r raised %s on the nexus for connection %r" % (i, name, slot))
         if slot is None: continue
         if name == "PortStatus": self.nlog[slot].append(("ps", self._ps_ident(e)))
@@ -161,6 +185,8 @@ class World (object):
     if fail: sock.send_script = ["epipe"]
     raised = None
     self.transitions += 1
+    self.cur = cur = [i, items, 0]
+    lep0 = self.lsn_epipe.get(i, 0)
     try:
       r = self._feed(i, data, cuts)
     except Stop:
@@ -171,7 +197,9 @@ class World (object):
       raised = "%s:%s: %s" % (pox_site(sys.exc_info()[2]), type(e).__name__, e)
       self.read_exceptions.append(raised)
       r = "raised " + raised
-    fired = any(o == "epipe" for n, o in sock.sends[nsend0:])
+    self.cur = None
+    # (failed sends scripted by an acting listener are accounted for by the listener itself)
+    fired = len([1 for n, o in sock.sends[nsend0:] if o == "epipe"]) > self.lsn_epipe.get(i, 0) - lep0
     sock.send_script = []
     healthy = self.ref.cons[i].live and not raised and not fired
     stage = self.ref.cons[i].stage
@@ -179,7 +207,7 @@ class World (object):
     # reference: messages in arrival order; the failed send (if it fired) belongs to the first
     # message that makes a controller write
     marked = False
-    for k, s in items:
+    for k, s in items[cur[2]:]:         # (messages up to a listener's action were accounted for when it acted)
       sends = self.ref.makes_controller_send(i, k)
       self.ref.message(i, k, s)
       if fired and sends and not marked:
@@ -226,6 +254,140 @@ class World (object):
     self.lines.append("send-error(%d): %s of a barrier request, socket raises EPIPE" % (i, via))
     return self.check(i, "send-error", via)
 
+  # ---- application listeners ------------------------------------------------------
+  MAX_NEST = 6          # an acting listener re-entered deeper than this stops acting (bounds runaway recursion)
+
+  def _slot (self, con):
+    return self.slot_of.get(self.st.cons.index(con)) if con in self.st.cons else None
+
+  def on_event (self, name, where, e):
+    """An application's listener for a life-cycle event (called after the recorder).  Always: read the
+    registry DURING delivery.  With a spec (part f): act on a connection from inside the listener."""
+    try:
+      self._on_event(name, where, e)
+    except Stop:
+      pass
+
+  def _on_event (self, name, where, e):
+    con = e.connection
+    slot = self._slot(con)
+    ref = self.ref.cons.get(slot)
+    self.transitions += 1
+    reg = self.real_registry()
+    for d, s in sorted(reg.items(), key=repr):
+      rc = self.ref.cons.get(s)
+      if rc is None or not rc.live or (name == "ConnectionDown" and s == slot):
+        self.fail("registry:during-%s:lost-connection-registered" % name,
+                  "while %s for connection %r is delivered on the %s, datapath %r is registered to connection %r which %s"
+                  % (name, slot, where, d, s, "is the one reported down" if (name == "ConnectionDown" and s == slot) else "is lost"))
+    if name == "ConnectionUp" and ref is not None and ref.live and reg.get(ref.dpid) != slot:
+      self.fail("registry:during-ConnectionUp:announced-connection-not-registered",
+                "while ConnectionUp for live connection %r is delivered on the %s, datapath %r is registered to %r" % (slot, where, ref.dpid, reg.get(ref.dpid)))
+    if name == "ConnectionUp" and where == "nexus" and slot is not None and slot not in self.announced:
+      self.announced.append(slot)
+    sp = self.spec
+    if sp is None or slot is None or sp[0] != where or sp[1] != name: return
+    swhere, sevent, action, target, mode = sp
+    if target == "self": tgt = slot
+    else:
+      # the connection of the same datapath the application saw come up before this one
+      older = [s for s in self.announced if s != slot and self.dpids[s] == self.dpids[slot]]
+      if not older: return
+      tgt = older[-1]
+    if mode == "once":
+      if tgt in self.fired_once: return
+      self.fired_once.add(tgt)
+    if self.depth >= self.MAX_NEST: return
+    self.depth += 1; self.fires += 1
+    try:
+      self._act(name, where, e, slot, tgt, action)
+    finally:
+      self.depth -= 1
+
+  def _catch_up (self, slot, name, e):
+    """The listener acts while message n of the current chunk is being handled: the reference reads the
+    messages up to and including the one that caused this event before the action takes effect."""
+    cur = self.cur
+    if cur is None or cur[0] != slot or name == "ConnectionDown": return
+    c = self.ref.cons[slot]
+    ident = self._ps_ident(e) if name == "PortStatus" else None
+    def reached ():
+      if c.stage != "up": return False
+      return ident is None or ident in c.deferred or ident in c.post or ident in c.pre or ident in c.unconstrained
+    while not reached() and cur[2] < len(cur[1]):
+      k, s = cur[1][cur[2]]; cur[2] += 1
+      self.ref.message(slot, k, s)
+
+  def _drop (self, tgt, closed, name, where, slot):
+    """A listener drops connection tgt.  Port-status messages not yet delivered on both sources are no
+    longer demanded (the statement does not say whether a dropped connection still gets them)."""
+    c = self.ref.cons[tgt]
+    if c.live and not (name == "ConnectionDown" and tgt == slot):
+      # (events of the running operation are not collected into nlog/clog yet)
+      done_c = set(self._ps_ident(ev) for n, s, ev in self.con_events[self.cev_mark:] if n == "PortStatus" and s == tgt)
+      done_n = set(self._ps_ident(ev) for n, k, ev in self.st.events[self.ev_mark:] if n == "PortStatus" and self.slot_of.get(k) == tgt)
+      alln = set(x[1] for x in self.nlog[tgt] if x[0] == "ps") | done_n
+      allc = set(x[1] for x in self.clog[tgt] if x[0] == "ps") | done_c
+      done = alln & allc
+      for x in list(c.deferred) + list(c.post):
+        if x not in done: c.unconstrained.add(x)
+      c.deferred = [x for x in c.deferred if x in done]
+      c.post = [x for x in c.post if x in done]
+      if name == "ConnectionUp" and where == "nexus" and tgt == slot:
+        c.dropped_during_nexus_up = True      # ConnectionUp on the Connection itself has not been raised yet
+    if closed: self.ref.closed(tgt)
+    else: self.ref.lost(tgt)
+    self.acted.add(tgt)
+
+  def _act (self, name, where, e, slot, tgt, action):
+    import pox.openflow.libopenflow_01 as of
+    tcon = self.con(tgt)
+    what = "%s listener on the %s, %s(connection %d)" % (name, where, action, tgt)
+    self.lines.append("  [listener] %s for connection %d on the %s: application calls %s on connection %d" % (name, slot, where, action, tgt))
+    def call (site, fn, *a):
+      self.transitions += 1
+      try: return fn(*a)
+      except Exception as ex:
+        self.fail("raises:%s:%s:%s" % (site, pox_site(sys.exc_info()[2]), type(ex).__name__), "%s raised %s: %s" % (what, type(ex).__name__, ex))
+        return None
+    if action in ("close", "disconnect"):
+      if tgt == slot: self._catch_up(slot, name, e)
+      self._drop(tgt, action == "close", name, where, slot)
+      if action == "close": call("listener:Connection.close", tcon.close)
+      else: call("listener:Connection.disconnect", tcon.disconnect)
+    elif action == "send-epipe":
+      if tgt == slot: self._catch_up(slot, name, e)
+      n0 = len(tcon.sock.sends)
+      saved = tcon.sock.send_script
+      tcon.sock.send_script = ["epipe"]
+      call("listener:Connection.send", tcon.send, of.ofp_barrier_request())
+      tcon.sock.send_script = saved
+      if any(o == "epipe" for n, o in tcon.sock.sends[n0:]):
+        self.lsn_epipe[tgt] = self.lsn_epipe.get(tgt, 0) + 1
+        self._drop(tgt, False, name, where, slot)
+    elif action == "sendToDPID":
+      d = self.dpids[slot]
+      self.lprobe_n += 1
+      data = W.barrier_request(0x0c09f000 + self.lprobe_n)
+      r = call("listener:sendToDPID", self.st.nexus.sendToDPID, d, data)
+      holders = []
+      for s, k in sorted(self.cidx.items()):
+        sk = self.st.cons[k].sock
+        if data in sk.tx:
+          holders.append(s); sk.tx = sk.tx.replace(data, b"")
+      for s in holders:
+        rc = self.ref.cons[s]
+        if not rc.live or (name == "ConnectionDown" and s == slot):
+          self.fail("sendToDPID:during-%s:bytes-written-to-lost-connection" % name,
+                    "sendToDPID(%d) called from a %s listener (event for connection %d) wrote to connection %d which is lost" % (d, name, slot, s))
+      c = self.ref.cons[slot]
+      if name == "ConnectionUp" and c.live and (not r or holders != [slot]):
+        self.fail("sendToDPID:during-ConnectionUp:announced-connection-not-reached",
+                  "sendToDPID(%d) called from the ConnectionUp listener of live connection %d returned %r and wrote to connections %r" % (d, slot, r, holders))
+      self.lines.append("  [listener] sendToDPID(%d) -> %r, bytes on connections %r" % (d, r, holders))
+    elif action == "raise":
+      raise RuntimeError("application listener failed")
+
   # ---- oracle -------------------------------------------------------------------
   def check_events (self, i, where, log):
     c = self.ref.cons[i]
@@ -238,10 +400,12 @@ class World (object):
                         "ConnectionUp raised on the %s for connection %d whose handshake has only reached stage '%s'" % (where, i, c.stage))
     else:
       if len(ups) > 1: self.fail("up:raised-twice:%s" % where, "ConnectionUp raised %d times on the %s for connection %d" % (len(ups), where, i))
-      if c.completed_live and not ups:
+      if c.completed_live and not ups and not (where == "connection" and getattr(c, "dropped_during_nexus_up", False)):
         self.fail("up:missing:%s" % where, "connection %d received features reply and barrier reply but ConnectionUp was not raised on the %s" % (i, where))
     # port status
-    if pss and (not ups or pss[0][0] < ups[0]):
+    if pss and not ups and where == "connection" and getattr(c, "dropped_during_nexus_up", False):
+      pass      # the Connection object never announced the connection a nexus listener dropped: nothing is said about its later messages
+    elif pss and (not ups or pss[0][0] < ups[0]):
       self.fail("portstatus:before-up:%s" % where, "PortStatus %r delivered on the %s before ConnectionUp of connection %d" % (pss[0][1], where, i))
     ids = [x for n, x in pss]
     if len(set(ids)) != len(ids):
@@ -250,7 +414,11 @@ class World (object):
       got = [x for x in ids if x not in c.pre and x not in c.unconstrained]
       want = self.ref.required_ps(i)
       if got != want:
-        if sorted(got) == sorted(want): cl = "order"
+        here = set(c.pre) | set(c.deferred) | set(c.post) | c.unconstrained
+        foreign = [x for x in got if x not in here and any(x in (set(o.pre) | set(o.deferred) | set(o.post) | o.unconstrained)
+                                                              for j, o in self.ref.cons.items() if j != i)]
+        if foreign: cl = "from-another-connection"
+        elif sorted(got) == sorted(want): cl = "order"
         elif set(want) - set(got):
           miss = sorted(set(want) - set(got))
           cl = "lost:" + ("deferred" if miss[0] in c.deferred else "after-up")
@@ -260,7 +428,13 @@ class World (object):
     # connection-down
     announced = bool(ups)
     if downs and ups and downs[0] < ups[0]:
-      self.fail("down:before-up:%s" % where, "ConnectionDown precedes ConnectionUp for connection %d" % i)
+      if where == "connection" and getattr(c, "dropped_during_nexus_up", False):
+        # a ConnectionUp listener on the nexus dropped the connection: the Connection object may stay silent,
+        # but announcing a connection on it after it was reported down is the same clause with a cause of its own
+        self.fail("down:before-up:connection:dropped-by-nexus-ConnectionUp-listener",
+                  "a ConnectionUp listener on the nexus closed/disconnected connection %d; the Connection then raised ConnectionDown and AFTER it ConnectionUp" % i)
+      else:
+        self.fail("down:before-up:%s" % where, "ConnectionDown precedes ConnectionUp for connection %d" % i)
     if announced:
       if len(downs) > 1: self.fail("down:raised-twice:%s" % where, "ConnectionDown raised %d times on the %s for connection %d" % (len(downs), where, i))
       if c.live and downs: self.fail("down:spurious:%s" % where, "ConnectionDown raised on the %s for connection %d which is not lost" % (where, i))
@@ -378,6 +552,7 @@ class World (object):
     for k, what in self.bad[self.shown:]:
       self.lines.append("  VIOLATED %s: %s" % (k, what))
     self.shown = len(self.bad)
+    self.acted = set()
     return (op, tuple(ev), tuple(sorted(real.items())), tuple((d, r, tuple(g)) for d, r, g in pr), repr(obs))
 
   # ---- canonical state (part c) ------------------------------------------------
@@ -528,8 +703,8 @@ def c_script (i):
 
 
 class CWorld (object):
-  def __init__ (self, dpids):
-    self.w = World(dpids)
+  def __init__ (self, dpids, spec=None):
+    self.w = World(dpids, spec)
     self.n = len(dpids)
     self.pos = [0] * self.n
 
@@ -556,6 +731,25 @@ class CWorld (object):
     return o
 
   def apply (self, op):
+    out = self._apply(op)
+    self.check_stall()
+    return out
+
+  def check_stall (self):
+    """A live connection whose switch is waiting for a request the controller never wrote can never be
+    announced (the faithful switch cannot answer a request it did not receive)."""
+    w = self.w
+    for i in sorted(w.cidx):
+      c = w.ref.cons[i]; sc = c_script(i)
+      if not c.live or c.closed or self.pos[i] >= len(sc): continue
+      k = sc[self.pos[i]][0][0]
+      if k in L.HS_KINDS and not w.peers[i].can(k):
+        n0 = len(w.bad)
+        w.fail("handshake:stalled:no-%s-request" % {"barrier-unsup": "barrier"}.get(k, k),
+               "connection %d: the switch never received the request it has to answer with '%s' (controller wrote %r): ConnectionUp can never be raised" % (i, k, w.peers[i].got))
+        if len(w.bad) > n0: w.lines.append("  VIOLATED %s: %s" % w.bad[-1]); w.shown = len(w.bad)
+
+  def _apply (self, op):
     w = self.w; w.bad = []; w.shown = 0
     kind, i = op
     if op not in self.ops(): raise KeyError(op)
@@ -841,6 +1035,193 @@ def _e_worker (cases):
   return rep
 
 
+# =============================================================================
+# part (f): application listeners that act on a connection DURING the delivery of its life-cycle events
+# =============================================================================
+F_EVENTS = ("ConnectionUp", "ConnectionDown", "PortStatus")
+
+def gen_specs ():
+  """(where, event, action, target, mode).  close/disconnect: a listener that acts once per connection
+  and one that acts every time it is called; target 'older' = the connection of the same datapath the
+  application saw come up before the event's connection (sendToDPID addresses the datapath: self only)."""
+  out = []
+  for where in ("nexus", "connection"):
+    for ev in F_EVENTS:
+      for target in ("self", "older"):
+        for action, modes in (("close", ("once", "always")), ("disconnect", ("once", "always")), ("send-epipe", ("always",)),
+                              ("sendToDPID", ("always",)), ("raise", ("always",))):
+          if action in ("sendToDPID", "raise") and target != "self": continue
+          for mode in modes: out.append((where, ev, action, target, mode))
+  return out
+
+
+def f_histories (thorough):
+  """Operation sequences (CWorld ops; an operation that is no longer possible is skipped).
+  one connection: every prefix of the script, then [send-error], close - for each barrier flavour;
+  two connections of one datapath: every merge order of their handshake deliveries, the remaining
+  deliveries, then both closes in both orders."""
+  one = []
+  for i in (0, 1):
+    for k in range(5):
+      for se in (False, True):
+        one.append((("open", i),) + (("deliver", i),) * k + ((("send-error", i),) if se else ()) + (("close", i),))
+  two = []
+  per = 4 if thorough else 3
+  for order in merges(2, per):
+    rest = tuple(("deliver", i) for i in (0, 1) for _ in range(4 - per))
+    for tail in ((0, 1), (1, 0)):
+      two.append((("open", 0), ("open", 1)) + tuple(("deliver", i) for i in order) + rest + tuple(("close", i) for i in tail))
+  return one, two
+
+
+def run_listener_case (spec, ops):
+  cw = CWorld((1, 1), tuple(spec))
+  outs = []; bad = []
+  try:
+    for op in ops:
+      op = tuple(op)
+      if op not in cw.ops(): continue
+      outs.append(cw.apply(op))
+      for b in cw.w.bad:
+        if not any(b[0] == x[0] for x in bad): bad.append(b)
+      if outs[-1] == ("stopped",): break
+  finally:
+    cw.w.dispose()
+  return cw.w, outs, bad
+
+
+def _f_worker (item):
+  from mc.env import boot
+  boot()
+  rep = Report(PID, "model_checking")
+  for spec, ops in item:
+    w, outs, bad = run_listener_case(spec, ops)
+    rep.evaluations += 1
+    rep.transitions += w.transitions
+    rep.outcome(("listener", spec, tuple(outs), w.fires))
+    rep.extra["listener_actions"] = rep.extra.get("listener_actions", 0) + w.fires
+    data = dict(part="f", spec=list(spec), ops=[list(o) for o in ops])
+    for k, what in bad: rep.violation(k, what, data)
+    if not bad and w.fires and rep.evaluations % 97 == 5: rep.sample(dict(case=data, trace=w.lines))
+  return rep
+
+
+# =============================================================================
+# part (g): overlapping handshakes of two connections, asynchronous messages at every position of both
+# =============================================================================
+G_HS = ("hello", "features")
+
+def g_scripts (slot, kinds, kmax=1):
+  """Scripts of one connection: [hello, features reply, barrier reply | unsupported] (one message per
+  recv) with <= kmax asynchronous messages at every position.  Serial numbers are unique per slot."""
+  last = "barrier-unsup" if slot == 1 else "barrier"
+  hs = G_HS + (last,)
+  out = []
+  for asyncs in gen_scripts_n(kinds, kmax, len(hs) + 1):
+    slots = [[] for _ in range(len(hs) + 1)]
+    for n, (p, kd) in enumerate(asyncs): slots[p].append((kd, 100 * (slot + 1) + n + 1))
+    flat = []
+    for p in range(len(hs) + 1):
+      flat.extend(slots[p])
+      if p < len(hs): flat.append((hs[p], 0))
+    out.append(tuple(flat))
+  return out
+
+
+def gen_scripts_n (kinds, kmax, nslot):
+  out = []
+  def rec (prefix, minslot, k):
+    out.append(prefix)
+    if k == 0: return
+    for s in range(minslot, nslot):
+      for kd in kinds:
+        rec(prefix + ((s, kd),), s, k - 1)
+  rec((), 0, kmax)
+  return out
+
+
+def merges2 (a, b):
+  """All interleavings of a steps of connection 0 with b steps of connection 1."""
+  out = []
+  def rec (prefix, x, y):
+    if x == 0 and y == 0: out.append(prefix); return
+    if x: rec(prefix + (0,), x - 1, y)
+    if y: rec(prefix + (1,), x, y - 1)
+  rec((), a, b)
+  return out
+
+
+def run_overlap (dpids, scripts, order):
+  """Both connections accepted (index order); then their scripts merged as `order`.  A script item is a
+  (kind, serial) message delivered in a recv of its own, or ("close", 0): the I/O loop closes it."""
+  w = World(list(dpids))
+  outs = []
+  pos = [0] * len(scripts)
+  try:
+    for i in range(len(scripts)):
+      outs.append(w.open(i))
+      if w.bad: raise Stop()
+    for i in order:
+      k, s = scripts[i][pos[i]]; pos[i] += 1
+      c = w.ref.cons[i]
+      if c.closed: continue
+      if k == "close":
+        outs.append(w.close(i))
+      else:
+        if k in L.HS_KINDS and not w.peers[i].can(k):
+          if c.live:
+            w.fail("handshake:stalled:no-%s-request" % {"barrier-unsup": "barrier"}.get(k, k),
+                   "connection %d: the switch never received the request it has to answer with '%s' (controller wrote %r)" % (i, k, w.peers[i].got))
+            w.lines.append("  VIOLATED %s: %s" % w.bad[-1])
+            raise Stop()
+          continue
+        outs.append(w.deliver(i, [(k, s)]))
+      if w.bad: raise Stop()
+  except Stop:
+    pass
+  finally:
+    w.dispose()
+  return w, outs
+
+
+# tier -> (asynchronous kinds of connection 0, how many of them, asynchronous kinds of connection 1)
+G_BOUNDS = {False: (("ps-add", "echo", "err-code"), 1, ("ps-add",)),
+            True: (("ps-add", "ps-mod", "echo", "err-code"), 2, ("ps-add", "echo", "err-code"))}
+
+def gen_g_cases (thorough):
+  """(dpids, scripts).  Full overlap: connection 0 with an asynchronous message of every kind at every
+  position, connection 1 with a port-status at every position.  Loss: connection 0 (port-status at every
+  position) is closed after every prefix of its script while connection 1 goes through its handshake."""
+  kinds0, k0, kinds1 = G_BOUNDS[bool(thorough)]
+  s0 = g_scripts(0, kinds0, k0)
+  s1 = g_scripts(1, kinds1, 1)
+  s0ps = g_scripts(0, ("ps-add",), 1)
+  cases = []
+  for dpids in ((1, 2), (1, 1)):
+    for a in s0:
+      for b in s1: cases.append((dpids, (a, b)))
+    for a in s0ps:
+      for p in range(len(a)):
+        for b in s1: cases.append((dpids, (a[:p] + (("close", 0),), b)))
+  return cases
+
+
+def _g_worker (item):
+  from mc.env import boot
+  boot()
+  rep = Report(PID, "model_checking")
+  for dpids, scripts in item:
+    for order in merges2(len(scripts[0]), len(scripts[1])):
+      w, outs = run_overlap(dpids, scripts, order)
+      rep.evaluations += 1
+      rep.transitions += w.transitions
+      rep.outcome(("overlap", tuple(outs)))
+      data = dict(part="g", dpids=list(dpids), scripts=[[list(x) for x in sc] for sc in scripts], order=list(order))
+      for k, what in w.bad: rep.violation(k, what, data)
+      if not w.bad and rep.evaluations % 1999 == 11: rep.sample(dict(case=data, trace=w.lines))
+  return rep
+
+
 UP0 = (("open", 0), ("deliver", 0), ("deliver", 0), ("deliver", 0))
 
 
@@ -869,17 +1250,42 @@ def run (cfg):
               "pending bytes at a read cut at 2047/2048/2049/4095/4096/4097. After every operation: events on nexus and "
               "Connection, the registry (items()) and a sendToDPID probe per datapath id are compared with the reference life-cycle, and every other "
               "registry view (getConnection, [dpid], membership by dpid and by connection, keys(), values(), iteration, len, .dpids, iter_dpids()) "
-              "is read and compared with items(). distinct = (script shape, loss, "
-              "observation sequence) for (a)/(b), (last op, observation) for (c)"
+              "is read and compared with items(). (f) application listeners acting DURING event delivery: every listener behaviour "
+              "(source nexus | Connection) x (ConnectionUp | ConnectionDown | PortStatus) x {close, disconnect (each: once per connection / every time it is called), "
+              "send answered by EPIPE, sendToDPID of the event's datapath, raise} x target {the event's own connection, the older announced connection of the same "
+              "datapath} (%d behaviours), each under: one connection (either barrier flavour) - every prefix of [hello][features reply + port-status][barrier "
+              "reply | unsupported][port-status], then optionally send-error, then close (20 histories); two connections of ONE datapath - every merge order of "
+              "their %s, then both closes in both orders (%d histories); listeners re-entered more than %d deep stop acting. "
+              "(g) overlapping handshakes of two connections, datapath ids (1,2) and (1,1), one message per recv, scripts [hello, features reply, barrier reply "
+              "(connection 0) | unsupported (connection 1)]: connection 0 with <=%d asynchronous message(s) from %r and connection 1 with <=1 from %r at EVERY "
+              "position (before hello / before the features reply / before the barrier reply / after it), every merge order of the two scripts (<=%d per pair); and "
+              "connection 0 (port-status at every position) closed by the I/O loop after every prefix of its script, merged in every order with every script of "
+              "connection 1; port-status serial numbers are unique per connection so a message surfacing on another connection is recognised. "
+              "In ALL parts an application listener on the nexus and on every Connection reads the registry during the delivery of every ConnectionUp / "
+              "ConnectionDown / PortStatus (no lost connection registered; the connection being announced is the one registered). "
+              "distinct = (script shape, loss, "
+              "observation sequence) for (a)/(b), (last op, observation) for (c), (listener behaviour, observation sequence) for (f), observation sequence for (g)"
               % (kmax, list(kinds), depth, " / ".join(str(r[0]) for r in roots), cfg.pick(1, 2),
-                 "every", cfg.pick("header / message-boundary / middle / tail offsets", "every byte offset")))
-  rep.bound = dict(async_messages=kmax, async_kinds=list(kinds), bfs_depth=depth, connections=3, datapath_ids=2)
+                 "every", cfg.pick("header / message-boundary / middle / tail offsets", "every byte offset"),
+                 len(gen_specs()), cfg.pick("first three deliveries (20 orders), then the remaining deliveries", "four deliveries (70 orders)"),
+                 len(f_histories(not cfg.quick)[1]), World.MAX_NEST,
+                 G_BOUNDS[not cfg.quick][1], list(G_BOUNDS[not cfg.quick][0]), list(G_BOUNDS[not cfg.quick][2]),
+                 cfg.pick(70, 126)))
+  rep.bound = dict(async_messages=kmax, async_kinds=list(kinds), bfs_depth=depth, connections=3, datapath_ids=2,
+                   listener_behaviours=len(gen_specs()), listener_nesting=World.MAX_NEST, listener_connections=2,
+                   overlap_connections=2, overlap_async_messages=[G_BOUNDS[not cfg.quick][1], 1])
   rep.assumptions = [
     "the peer is a faithful switch: it answers only requests it received, with the xid it read from the controller's bytes",
     "a port-status that arrives before the features reply may be dropped or delivered after connection-up (superseded by the features reply)",
     "ConnectionDown for a connection that never was announced is not constrained; events for a connection after the controller noticed its loss are constrained only by at-most-once / not-before-up",
     "'most recent' live connection = the live connection whose handshake completed (was announced) last, irrespective of accept order",
     "deferred sender is an inert stub (no partial writes; C20 covers them); data already queued on a socket is still readable after a failed send",
+    "application listeners run after the recording listeners of the same source (lower priority), so the recorded order is the order in which events are RAISED; "
+    "a connection dropped by a listener (close / disconnect / failed send) counts as lost from that moment: port-status messages not yet delivered on both "
+    "sources are no longer demanded, and when a ConnectionUp listener on the nexus drops the connection the Connection object itself need not announce it "
+    "(but must not announce it AFTER reporting it down)",
+    "inside a listener only two registry facts are demanded: no datapath is registered to a lost connection (or to the connection being reported down), and "
+    "during ConnectionUp of a live connection the datapath is registered to (and sendToDPID reaches) that connection",
     "state key = reference model + every life-cycle field of each real Connection, its handshake handler, socket flags, event logs and the real registry",
   ]
   only = cfg.only
@@ -909,6 +1315,24 @@ def run (cfg):
       rep.merge(r)
     rep.extra["real_loop_cases"] = len(cases)
     rep.state_count += rep.evaluations - n0
+  # ---- (f)
+  if only in (None, "f"):
+    specs = gen_specs()
+    one, two = f_histories(not cfg.quick)
+    cases = [(sp, ops) for sp in specs for ops in (two if sp[3] == "older" else one + two)]
+    n0 = rep.evaluations
+    for r in pmap(_f_worker, split(cases, max(1, cfg.workers * 4)), cfg.workers, seed=cfg.seed):
+      rep.merge(r)
+    rep.extra["listener_specs"] = len(specs); rep.extra["listener_cases"] = len(cases)
+    rep.state_count += rep.evaluations - n0
+  # ---- (g)
+  if only in (None, "g"):
+    cases = gen_g_cases(not cfg.quick)
+    n0 = rep.evaluations
+    for r in pmap(_g_worker, split(cases, max(1, cfg.workers * 4)), cfg.workers, seed=cfg.seed):
+      rep.merge(r)
+    rep.extra["overlap_script_pairs"] = len(cases)
+    rep.state_count += rep.evaluations - n0
   # ---- (c)
   if only in (None, "c"):
     for dpids, root, d in roots:
@@ -928,6 +1352,13 @@ def replay (cfg, data):
     return bool(w.bad), "\n".join(w.lines + ["=> %r" % ([k for k, _ in w.bad],)])
   if data.get("part") == "e":
     w, outs = run_task_case((data["pre"], data["nports"], data["last"], data["tail"], data["cuts"]))
+    return bool(w.bad), "\n".join(w.lines + ["=> %r" % ([k for k, _ in w.bad],)])
+  if data.get("part") == "f":
+    w, outs, bad = run_listener_case(tuple(data["spec"]), [tuple(o) for o in data["ops"]])
+    return bool(bad), "\n".join(w.lines + ["=> %r" % ([k for k, _ in bad],)])
+  if data.get("part") == "g":
+    scripts = tuple(tuple((k, s) for k, s in sc) for sc in data["scripts"])
+    w, outs = run_overlap(tuple(data["dpids"]), scripts, tuple(data["order"]))
     return bool(w.bad), "\n".join(w.lines + ["=> %r" % ([k for k, _ in w.bad],)])
   if data.get("part") == "d":
     w, outs, bad = run_merge(data["n"], tuple(data["order"]), tuple(data["closes"]))
